@@ -102,7 +102,11 @@ class PITFrozenFeaturesMasker(PITFeaturesMasker):
                  keep_alive_channels: int = 1):
         super(PITFrozenFeaturesMasker, self).__init__(
                 out_channels, trainable=trainable, keep_alive_channels=keep_alive_channels)
-        self.alpha.requires_grad = False
+        # a frozen mask is a constant, not a parameter: DNAS.train_* write requires_grad on every
+        # element of nas_parameters() without going through the `trainable` setter below
+        alpha = self.alpha.detach()
+        del self.alpha
+        self.register_buffer('alpha', alpha)
         self.register_buffer('_fixed_alpha', torch.ones(self.out_channels, dtype=torch.float32))
 
     @property
